@@ -46,6 +46,9 @@ pub fn exercise_v1(h: &v1::Header<'_>) -> u64 {
     let _ = slot == o;
     sink.clear();
     let _ = write!(sink, "{:#?}{:>4}{:<120}{:+}{:08}{:.3}{:^9.2}", h, h.addresses, h.addresses, h.addresses, h.addresses, h.addresses, h);
+    // Debug honours format specs too (a hand-written impl may pad or truncate by hand)
+    sink.clear();
+    let _ = write!(sink, "{:3?}{:>90?}{:#12?}{:08?}{:.2?}{:<1?}{:^200.1?}", h, h, h.addresses, h.addresses, h.addresses, h, h.addresses);
     let mut re = Reentrant { inner: String::new(), addr: h.addresses, depth: 0 };
     let _ = write!(re, "{}", h.addresses);
     let _ = write!(re, "{}", h);
@@ -95,6 +98,7 @@ impl Write for Reentrant {
 pub fn exercise_v1_err(e: &v1::ParseError) -> u64 {
     let mut sink = String::new();
     let _ = write!(sink, "{}{:?}", e, e);
+    let _ = write!(sink, "{:2?}{:>80?}{:#3?}{:.1?}{:>70}{:.2}", e, e, e, e, e, e);
     let _ = e.source().map(|s| s.to_string());
     let _ = e.is_incomplete() == !e.is_complete();
     let _ = e == e;
@@ -104,6 +108,7 @@ pub fn exercise_v1_err(e: &v1::ParseError) -> u64 {
 pub fn exercise_v1b_err(e: &v1::BinaryParseError) -> u64 {
     let mut sink = String::new();
     let _ = write!(sink, "{}{:?}", e, e);
+    let _ = write!(sink, "{:2?}{:>80?}{:#3?}{:.1?}{:>70}{:.2}", e, e, e, e, e, e);
     let _ = e.source().map(|s| s.to_string());
     let _ = e.is_incomplete() == !e.is_complete();
     let _ = e == e;
@@ -136,12 +141,14 @@ pub fn exercise_tlvs(t: v2::TypeLengthValues<'_>) -> Result<u64, u64> {
                 if tlv.len() < 64 {
                     sink.clear();
                     let _ = write!(sink, "{:?}", tlv);
+                    let _ = write!(sink, "{:3?}{:>300?}{:.1?}", tlv, tlv, tlv);
                 }
                 calls += 4;
             }
             Err(e) => {
                 sink.clear();
                 let _ = write!(sink, "{}{:?}", e, e);
+                let _ = write!(sink, "{:2?}{:>80?}{:#3?}{:.1?}{:>70}{:.2}", e, e, e, e, e, e);
                 let _ = e.is_incomplete();
                 calls += 3;
             }
@@ -238,6 +245,11 @@ pub fn exercise_v2(h: &v2::Header<'_>) -> Result<u64, u64> {
     if h.len() < 200 {
         sink.clear();
         let _ = write!(sink, "{:#?}{:>300}{:+}{:.2}", h, h, h, h);
+        sink.clear();
+        let _ = write!(sink, "{:3?}{:>90?}{:#12?}{:08?}{:.2?}{:<1?}{:2?}{:1?}{:1?}", h.addresses, h.addresses, h.addresses, h.addresses, h.addresses, h.command, h.protocol, h.version, h.address_family());
+        if h.len() < 300 {
+            let _ = write!(sink, "{:3?}{:>700?}{:.2?}", h, h, h);
+        }
         let _ = write!(sink, "{:?}{:#?}", h.addresses, h.addresses);
     }
     let a = exercise_tlvs(h.tlvs())?;
@@ -260,6 +272,7 @@ thread_local! {
 pub fn exercise_v2_err(e: &v2::ParseError) -> u64 {
     let mut sink = String::new();
     let _ = write!(sink, "{}{:?}", e, e);
+    let _ = write!(sink, "{:2?}{:>80?}{:#3?}{:.1?}{:>70}{:.2}", e, e, e, e, e, e);
     let _ = e.source().map(|s| s.to_string());
     let _ = e.is_incomplete() == !e.is_complete();
     let _ = e == e;
